@@ -15,7 +15,8 @@ abbrev cfg : Cfg :=
 abbrev tcfg : TCfg := { completionAfterBody := Gen.Thread.completionAfterBody }
 abbrev rcfg : RCfg :=
   { increfBeforeSend := Gen.Thread.increfBeforeSend, recvKnownDecref := Gen.Thread.unmarshalKnownTestIsAbsent,
-    deinitDecref := Gen.Thread.chanDeinitDecrefsUndelivered, decrefFreesAtZero := Gen.Thread.decrefCleanupFreesAtZero }
+    deinitDecref := Gen.Thread.chanDeinitDecrefsUndelivered, decrefFreesAtZero := Gen.Thread.decrefCleanupFreesAtZero,
+    packFailDecref := Gen.Thread.packFailureReturnsTransitRefs }
 
 /-- the callback must not deliver to a fiber that moved on -/
 theorem checks_sched_id : cfg.checkSched = true := by decide
@@ -95,14 +96,14 @@ theorem refcount_ge_reachers_current (acts : List RAct) :
     let s := rrun rcfg acts {}
     (s.freed = false → s.refcount = s.holds.length + s.transit) ∧ (s.freed = true → s.holds = [] ∧ s.transit = 0) ∧
       s.useAfterFree = false :=
-  refcount_ge_reachers rcfg (by decide) (by decide) (by decide) acts
+  refcount_ge_reachers rcfg (by decide) (by decide) (by decide) (by decide) acts
 
 /-- for today's source no shared object is ever stranded: unreferenced (no table entry, no message) ⇒ freed, at every point
     of every interleaving, including finalizer runs of thread channels that still carry undelivered messages -/
 theorem shared_never_stranded_current (acts : List RAct) :
     let s := rrun rcfg acts {}
     s.holds = [] → s.transit = 0 → s.freed = true :=
-  shared_never_stranded rcfg (by decide) (by decide) (by decide) (by decide) acts
+  shared_never_stranded rcfg (by decide) (by decide) (by decide) (by decide) (by decide) acts
 
 /-- ev/lock and ev/rwlock are threaded abstracts with no marshal hooks (they cross threads only as pointer + incref, the
     threaded path being taken before any type hook), their finalizers only destroy the OS primitive, and every lock operation
@@ -115,7 +116,7 @@ theorem locks_valid_while_reachable_current (acts : List RAct) :
     let s := rrun rcfg acts {}
     (∀ t, s.reach t = true → s.freed = false) ∧ (0 < s.transit → s.freed = false) ∧ s.useAfterFree = false :=
   have _ := lock_types_shape
-  shared_valid_while_reachable rcfg (by decide) (by decide) (by decide) acts
+  shared_valid_while_reachable rcfg (by decide) (by decide) (by decide) (by decide) acts
 
 /-- lock discipline of today's ev.c: the kernel evaluates the path checker on the regenerated statement tree of every function
     that takes / releases the thread-channel mutex; all eleven are accepted (incl. the supervisor push of janet_loop1:
